@@ -267,20 +267,48 @@ def rule_U(ctx):
     outs = [o for o in w.run(body_nodocstring(f), State()) if o.kind == 'return']
     if len(outs) != 1:
         raise shape_error('groundDistanceToUnits not single path', f.loc())
-    v = vr(outs[0].value)
-    m = re.match(r'^(floor|ceil|int)\((.*)\)$', v)
-    if not m:
-        raise shape_error('groundDistanceToUnits: not floor/ceil of an expression: %s' % v, f.loc())
-    inner = w.ex(ast.parse('x').body[0].value, State({'x': Rat.atom('x')}))
-    txt = m.group(2)
-    uses_min = 'min(self.dX, self.dY)' in txt
-    uses_max = 'max(self.dX, self.dY)' in txt
-    # units >= d / min(dX,dY): floor(d/D + 1) with D = min, or ceil(d/D)
-    e1 = 'floor(%s)' % w.canon(Rat.atom(d) / Rat.atom('min(self.dX, self.dY)') + Rat.const(1))
-    e2 = 'ceil(%s)' % w.canon(Rat.atom(d) / Rat.atom('min(self.dX, self.dY)'))
-    ctx.check(v in (e1, e2) and not uses_max, 'C08.U', f,
-              'units = floor(d / D + 1) with D the SMALLER cell side: the window then covers distance d along both axes',
-              witness={'found': v, 'divides by the larger side': uses_max,
+    val = outs[0].value
+    if not (isinstance(val, Rat) and val.ispoly()):
+        raise shape_error('groundDistanceToUnits: return value not understood', f.loc())
+    rounders = [a for a in val.atoms() if re.match(r'^(floor|ceil|int|trunc)\(', a)]
+    if len(rounders) != 1 or not (val - Rat.atom(rounders[0])).isconst():
+        raise shape_error('groundDistanceToUnits: not <rounding>(expression) + constant: %s' % vr(val), f.loc())
+    c0 = (val - Rat.atom(rounders[0])).constval()
+    kind = rounders[0].split('(', 1)[0]
+    try:
+        inner_node = ast.parse(rounders[0], mode='eval').body.args[0]
+        inner = w.ex(inner_node, State({d: Rat.atom(d)}))
+    except Exception:
+        raise shape_error('groundDistanceToUnits: rounded expression not understood: %s' % rounders[0], f.loc())
+    # inner = d / E + B
+    B = inner.subst(d, Rat.const(0))
+    slope = inner - B
+    E = Rat.atom(d) / slope if not w.rel.is_zero(slope) else None
+    if E is not None and E.const_ratio() is None:
+        num, den = E.n, E.d
+        # cancel the distance: E = d*den'/(d*num') -> evaluate at d = 1
+        E = E.subst(d, Rat.const(1))
+    if E is None or d in E.atoms() or B.const_ratio() is None:
+        raise shape_error('groundDistanceToUnits: not affine in the distance: %s' % vr(inner), f.loc())
+    # (1) rounding never loses a started cell: floor/int need B + c0 >= 1, ceil needs B + c0 >= 0
+    slack = B.const_ratio() + c0
+    need = 0 if kind == 'ceil' else 1
+    ctx.check(slack >= need, 'C08.U', f, 'the rounding is upward: units * D >= d for every distance d (floor(d/D + 1) or ceil(d/D))',
+              witness={'found': vr(val), 'rounding': kind, 'constant added (inside + outside)': str(slack), 'needed at least': need,
+                       'why': 'with d = 1.5 cell sides one unit does not reach the feature'}, node=f.node, key='rounding')
+    # (2) the divisor is a lower bound of both cell sides (units grow when the side shrinks): decide on the order classes of (dX, dY)
+    from .. import orders
+    bad = None
+    for dx, dy in ((1, 2), (2, 1), (1, 1)):
+        try:
+            e = orders.ev(ast.parse(repr(E), mode='eval').body, {'self.dX': dx, 'self.dY': dy}, {'ite': lambda c_, a_, b_: a_ if c_ else b_})
+        except (orders.Unsupported, SyntaxError) as ex:
+            raise shape_error('groundDistanceToUnits: divisor not evaluable on the order classes of (dX, dY): %s' % vr(E), f.loc())
+        if bad is None and not (0 < e <= min(dx, dy)):
+            bad = {'dX': dx, 'dY': dy, 'divisor': str(e), 'smaller cell side': min(dx, dy)}
+    ctx.check(bad is None, 'C08.U', f,
+              'the distance is divided by (at most) the SMALLER cell side: the window then covers distance d along both axes',
+              witness={'divisor': vr(E), 'case': bad,
                        'why': 'the number of cells needed grows when the cell side shrinks: dividing by the larger side under-covers the other axis'},
               node=f.node, key='polarity')
 
